@@ -181,7 +181,9 @@ MetalExtra == {<<MacroEl(<<>>, <<>>), UseEl(P("macros/m1"), <<>>, <<Fill1(<<>>)>
             El("p", <<>>, <<CRepeat("x", P("lst"))>>, <<UseEl(P("macros/m1"), <<>>, <<Fill1(<<CContent(P("x"), FALSE)>>)>>)>>)>> : st \in {TRUE}}
 
 \* ---- family esc (C18): markup metacharacters in every substitution position -------------------------------------------
-MetaAlphabet == {"<", ">", "&", "\"", "'", "a"}
+\* the five characters html.escape knows, an ordinary one, and two tokens that LOOK already escaped (a named and a
+\* numeric reference): escaping must not depend on what the data looks like
+MetaAlphabet == {"<", ">", "&", "\"", "'", "a", "&lt;", "&#60;"}
 MetaValues(n) == TX!StringsUpTo(MetaAlphabet, n) \ {""}
 EscCtx(val) == <<Ent("d", Str(val)), Ent("ds", SeqV(<<Str(val), Str("a")>>)), Ent("dm", MapV(<<Ent("k", Str(val))>>))>>
 EscShapes == {
@@ -203,8 +205,23 @@ PyTrees == {Wrap(Base(t)) : t \in {<<CContent(PyE, FALSE)>>, <<CReplace(PyE, FAL
                                    <<CContent(Alt(<<P("zz"), PyE>>), FALSE)>>, <<CContent(S(<<Lit("a"), Sub(PyE)>>), FALSE)>>,
                                    <<CContent(Not(PyE), FALSE)>>, <<CCondition(P("z")), CContent(PyE, FALSE)>>}}
 
+\* ---- family doc (C18): TAL-free documents --------------------------------------------------------------------------------
+\* a small document grammar: elements, attributes, text with metacharacters, comments, doctype, void elements;
+\* `var` selects one of gamma's spellings (quote style, entity / character reference form, letter case,
+\* <br> vs <br/>): the parsed document is the same in every spelling
+DocTexts == {"a", "a<b", "x & y", "\"q\"'s", "1>0", "&amp;"}
+DocAtts  == {<<>>, <<At("id", "i")>>, <<At("title", "a\"b")>>, <<At("href", "x?a=1&b=2"), At("class", "c'd")>>, <<At("alt", "<>")>>}
+DocLeaves == {TextN(t) : t \in DocTexts} \cup {RawN("<!-- c -->"), El("br", <<>>, <<>>, <<>>)} \cup {El("img", a, <<>>, <<>>) : a \in DocAtts \ {<<>>}}
+DocKids(n) == UNION {[1..k -> DocLeaves] : k \in 0..n}
+DocElems(n) == {El(tag, a, <<>>, k) : tag \in {"div", "b"}, a \in DocAtts, k \in DocKids(n)}
+DocTreesSmall == {<<e>> : e \in DocElems(1)}
+                 \cup {<<RawN("<!DOCTYPE html>"), El("html", <<>>, <<>>, <<El("p", a, <<>>, <<e>>), TextN(t)>>)>> : a \in DocAtts, e \in DocElems(0), t \in DocTexts}
+DocTreesLarge == {<<e>> : e \in DocElems(2)} \cup {<<El("p", a, <<>>, <<e, TextN("z")>>)>> : a \in DocAtts, e \in DocElems(1)}
+DocVariants == 0..3
+
 \* ctx = [id |-> name of a context of Contexts ("none": no named context), ents |-> further globals]
-Case(fam, tree, id, ents, py) == [fam |-> fam, tree |-> tree, ctx |-> [id |-> id, ents |-> ents], py |-> py]
+Case(fam, tree, id, ents, py) == [fam |-> fam, tree |-> tree, ctx |-> [id |-> id, ents |-> ents], py |-> py, var |-> 0]
+DocCases(trees) == {[Case("doc", t, "none", <<>>, FALSE) EXCEPT !.var = v] : t \in trees, v \in DocVariants}
 Fam(fam, trees, ctxs) == {Case(fam, t, c, <<>>, FALSE) : t \in trees, c \in ctxs}
 EscCases(n) == {Case("esc", t, "none", EscCtx(v), FALSE) : t \in EscShapes, v \in MetaValues(n)}
 PyCases == {Case("py", t, "A", <<>>, py) : t \in PyTrees, py \in BOOLEAN}
